@@ -72,7 +72,8 @@ theorem C02_bounded_schemas :
     bounded attributeTy = true ∧ bounded input = true ∧ bounded program = true ∧
     bounded (output true) = true ∧ bounded (output false) = true ∧ bounded header = true ∧
     bounded confirm = true ∧ bounded inactiveArbitrators = true ∧ bounded dposIllegalBlocks = true ∧
-    bounded invMsg = true ∧ bounded getBlocksMsg = true ∧ bounded addrMsg = true := by decide
+    bounded invMsg = true ∧ bounded getBlocksMsg = true ∧ bounded addrMsg = true ∧
+    bounded merkleBlockMsg = true := by decide
 
 /-- `K` and `C` of the stand-alone schemas -/
 theorem C02_constants :
@@ -130,11 +131,11 @@ theorem C02_gen_const_makes :
       ["make([]common.Uint256, 0)", "make([][]byte, 0)", "make([]*BtcTxIn, 0)", "make([]*BtcTxOut, 0)",
        "make([]DPOSProposalVote, 0)", "make([]VotesContent, 0)", "make([]RenewalVotesContent, 0)"] := by decide
 
-/-- the three pre-sizing p2p readers: the maxima are the schema's limits, and every `make` sized
-    by the wire count comes after an `if count > Max { return … }` -/
+/-- the four pre-sizing p2p readers: the maxima are the schema's limits, and every `make` sized by a wire
+    count comes after an `if <that same variable> > Max { return … }` -/
 theorem C02_gen_p2p_limits :
-    Gen.C02.p2pLimits = [maxInvPerMsg, maxBlockLocatorsPerMsg, maxAddrPerMsg] ∧
-    Gen.C02.p2pCountMakes.length = 6 ∧ Gen.C02.p2pCountMakes.all (fun p => p.2.2) = true := by decide
+    Gen.C02.p2pLimits = [maxInvPerMsg, maxBlockLocatorsPerMsg, maxAddrPerMsg, maxTxPerBlock] ∧
+    Gen.C02.p2pCountMakes.length = 8 ∧ Gen.C02.p2pCountMakes.all (fun p => p.2.2) = true := by decide
 
 /-- token tie for the readers (same lemma as C04, on this property's own regenerated streams) -/
 theorem C02_gen_tokens_a :
